@@ -102,6 +102,18 @@ Theorem C02_oneshot_noncanonical_refuted :
 Proof. exact oneshot_noncanonical_refuted. Qed.
 Print Assumptions C02_oneshot_noncanonical_refuted.
 
+(* (4c) several search() calls on ONE object (pattern "state that survives between calls"): the object's history is the
+        concatenation of the calls' histories, the points handed out are the concatenation of the calls' points, and the state
+        a later call starts from satisfies the invariants (4) and (4b) start from - every later call is covered again *)
+Theorem C02_history_composes : forall (R lg : Q -> Q) (pw : Q -> Q -> Q) sp actf v st evs1 evs2,
+  asked R lg pw v sp actf st (evs1 ++ evs2)%list =
+    (asked R lg pw v sp actf st evs1 ++ asked R lg pw v sp actf (final R lg pw v sp actf st evs1) evs2)%list /\
+  (v <> Pinned -> wf_space sp = true -> Inv R lg sp st -> Forall (ev_ok sp) evs1 -> Inv R lg sp (final R lg pw v sp actf st evs1)) /\
+  ((forall x, actf (deactivate sp actf x) = actf x) -> InvC sp actf st -> Forall (ev_canon sp actf) evs1 ->
+   InvC sp actf (final R lg pw Fixed sp actf st evs1)).
+Proof. exact history_composes. Qed.
+Print Assumptions C02_history_composes.
+
 (* (5) the option lists the harness enumerates are the ones the source accepts (GENERATED facts), and every accepted
        acquisition function / strategy is forwarded to the Optimizer under a name the Optimizer accepts *)
 Theorem C02_options_enumerated :
